@@ -5,6 +5,8 @@ package lmd
 import (
 	"context"
 	"fmt"
+	"net"
+	"os"
 	"sort"
 	"sync/atomic"
 	"time"
@@ -170,6 +172,57 @@ func VerifExportImport(cfg *VerifConfig, conns []VerifConn, file string) (*Verif
 	}
 
 	return dst, nil
+}
+
+// VerifServeUnix answers client connections on a unix socket with the real ClientConnection.Handle until the
+// returned function is called.
+func (inst *VerifInstance) VerifServeUnix(path string) (stop func(), err error) {
+	listener, err := net.Listen("unix", path)
+	if err != nil {
+		return nil, err
+	}
+	go func() {
+		for {
+			conn, aErr := listener.Accept()
+			if aErr != nil {
+				return
+			}
+			go func() {
+				defer func() { _ = recover() }()
+				cl := NewClientConnection(inst.Lmd, conn, inst.Lmd.Config.ListenTimeout, inst.Lmd.Config.LogSlowQueryThreshold, inst.Lmd.Config.LogHugeQueryThreshold)
+				cl.Handle()
+			}()
+		}
+	}()
+
+	return func() { _ = listener.Close(); _ = os.Remove(path) }, nil
+}
+
+// VerifExportImportFederated points the real Exporter at another lmd (inner, served on a unix socket) instead of
+// at the cores: the exporter finds the inner daemon's backends as federated sub peers, with the state the inner
+// daemon reports for them. Both the exporting and the importing daemon are returned.
+func VerifExportImportFederated(inner *VerifInstance, cfg *VerifConfig, file, sock string) (src, dst *VerifInstance, stop func(), err error) {
+	stop, err = inner.VerifServeUnix(sock)
+	if err != nil {
+		return nil, nil, nil, err
+	}
+	src = verifNewDaemon(cfg, []VerifConn{{ID: "fed", Name: "fed", Source: []string{sock}}}, false)
+	src.Lmd.flags.flagExport = file
+	ex := &Exporter{lmd: src.Lmd}
+	if err = ex.Export(file); err != nil {
+		stop()
+
+		return nil, nil, nil, fmt.Errorf("export: %w", err)
+	}
+	dst = verifNewDaemon(cfg, nil, false)
+	dst.Lmd.flags.flagImport = file
+	if err = initializePeersWithImport(dst.Lmd, file); err != nil {
+		stop()
+
+		return nil, nil, nil, fmt.Errorf("import: %w", err)
+	}
+
+	return src, dst, stop, nil
 }
 
 func errString(err error) string {
